@@ -334,6 +334,9 @@ func verifyIden3SparseMerkleTreeProof(ctx context.Context,
 	if proof.MTP == nil {
 		return errors.New("merkle tree proof is not set")
 	}
+	if !proof.MTP.Existence {
+		return errors.New("merkle tree proof is not a proof of existence")
+	}
 	rootFromProof, err := merkletree.RootFromProof(proof.MTP, hi, hv)
 	if err != nil {
 		return err
